@@ -309,7 +309,7 @@ void HttpMessage::readBody()
 	if (chunked) // Transfer-Encoding overrides Content-Length (RFC 7230 3.3.3): the chunks alone frame the body
 		size = 0;
 	else if (hasHeader("Content-Length")) {
-		if (header("Content-Length") == "0")
+		if (size == 0) // "0", "00", ...: no body (the value was checked to be all digits above)
 			return;
 	}
 	else
